@@ -141,6 +141,7 @@ type bcWaitResult struct {
 	predErr     error
 	cancelStamp atomic.Int64
 	retStamp    int64
+	deadline    bool
 	ctx         context.Context
 	cancel      context.CancelFunc
 }
@@ -161,7 +162,13 @@ func bcastRandomCase(c *mon.Case) {
 	for i := 0; i < nWaiters; i++ {
 		i := i
 		wr := &bcWaitResult{id: i, threshold: 1 + r.IntN(maxGen+3), errAt: -1}
-		wr.ctx, wr.cancel = context.WithCancel(context.Background())
+		if r.IntN(4) == 0 {
+			// a deadline context: Wait must still report context.Canceled
+			wr.ctx, wr.cancel = context.WithTimeout(context.Background(), time.Duration(30+r.IntN(400))*time.Microsecond)
+			wr.deadline = true
+		} else {
+			wr.ctx, wr.cancel = context.WithCancel(context.Background())
+		}
 		if r.IntN(5) == 0 {
 			wr.errAt = 1 + r.IntN(maxGen)
 			wr.predErr = fmt.Errorf("pred-error-%d", i)
@@ -310,7 +317,7 @@ func bcastRandomCase(c *mon.Case) {
 		if wr.returned.Load() {
 			continue
 		}
-		cancelled := wr.cancelStamp.Load() != 0
+		cancelled := wr.cancelStamp.Load() != 0 || (wr.deadline && wr.ctx.Err() != nil)
 		satisfied := finalGen >= wr.threshold || (wr.errAt >= 0 && finalGen >= wr.errAt)
 		if satisfied || cancelled {
 			report = append(report, fmt.Sprintf("waiter %d (%s, gen>=%d, errAt %d, cancelled=%v) is still blocked at generation %d after %d evaluations", wr.id, wr.kind, wr.threshold, wr.errAt, cancelled, finalGen, wr.evals))
@@ -359,7 +366,9 @@ func bcastRandomCase(c *mon.Case) {
 			}
 		case wr.err == context.Canceled:
 			cs := wr.cancelStamp.Load()
-			if cs == 0 || cs > wr.retStamp {
+			if wr.deadline && wr.ctx.Err() != nil {
+				// the deadline passed (a context is done for good once it is done)
+			} else if cs == 0 || cs > wr.retStamp {
 				c.Violate("bcast", "wait-canceled-without-cancel", "waiter %d returned context.Canceled at %d but its context was cancelled at %d (0 = never)", wr.id, wr.retStamp, cs)
 			}
 		default:
